@@ -145,6 +145,7 @@ def Clause.text : Clause → String
   | .c01Panic n => s!"C01: call c{n} panicked (retire called twice / completed twice)"
   | .c01Blocked n => s!"C01: call c{n} is still blocked in Await although the connection has terminated (done closed)"
   | .c01Late n r => s!"C01: call c{n} started after termination ended with {rtokStr r}, not with a closed-connection error"
+  | .c01RegAfterRx oc => s!"C01: call(s) {",".intercalate (oc.map fun n => s!"c{n}")} are registered although the reader has failed: nothing can complete them any more (a call started after the connection broke must fail at once)"
   | .c02Twice r => s!"C02: request r{r} answered more than once"
   | .c02NotifAnswered r => s!"C02: notification r{r} received a response"
   | .c03BeforeSync j i => s!"C03: handler of r{j} started before the synchronous handler of earlier r{i} finished"
